@@ -280,6 +280,12 @@ def keepaliveOpts (cfg : Cfg) (w : Writer) : List EOpt :=
 def writerOptions (cfg : Cfg) (w : Writer) : List EOpt :=
   (match w.opt with | some o => o.options | none => []) ++ cookieOpts w ++ nsidOpts cfg w
 
+/-- `dropOtherOPTs(extra, opt)` with `opt` the last OPT record (the one
+`IsEdns0` returned): every other OPT record goes. -/
+def dropOtherOPTs : List RR → List RR
+  | [] => []
+  | r :: t => if r.isOpt && t.any RR.isOpt then dropOtherOPTs t else r :: dropOtherOPTs t
+
 /-- `keepExtendedErrors`: an OPT that arrived with the response keeps only its
 extended errors (and ECS, which `stripECS` removes right after). -/
 def keepExtendedErrors (os : List EOpt) : List EOpt :=
@@ -301,7 +307,7 @@ def shapeOpt (cfg : Cfg) (w : Writer) (m : Msg) : Msg :=
     let base : Opt := if own then w.opt.getD ro else ro
     let o : Opt := { udp := w.respUDP, doBit := w.do_, version := base.version,
                      options := finishOptions cfg w merged }
-    { m with extra := setLastOpt o m.extra }
+    { m with extra := setLastOpt o (dropOtherOPTs m.extra) }
 
 /-- `keepOPTOnly`: the FIRST OPT record, alone. -/
 def keepOPTOnly : List RR → List RR
